@@ -46,7 +46,7 @@ try:
             for l in viol[:2]:
                 rp = l.split("replay=")[1].strip()
                 if os.path.exists(rp):
-                    name = (a.name or (a.revert or os.path.basename(a.patch)).replace(".diff", "")) + "-" + os.path.basename(rp)[:8] + ".case"
+                    name = (a.name or (a.revert or os.path.basename(a.patch)).replace(".diff", "")) + "-" + os.path.basename(rp)[:8] + (".case" if rp.endswith(".case") else ".fuzz")
                     shutil.copy(rp, os.path.join(ROOT, "replay", pid, name))
                     print("  saved", name)
 finally:
